@@ -151,8 +151,11 @@ class BodyPart:
         if self._data is None:
             max_size = self._parse_options.max_body_part_buffer_size + 1
             self._data = self.stream.read(max_size)
-            if len(self._data) >= max_size:
-                raise MultipartParseError(description='body part is too large')
+
+        # NOTE: The (over-long) data stays cached, so the limit must be checked
+        #   on every call, not only on the one that buffered the content.
+        if len(self._data) > self._parse_options.max_body_part_buffer_size:
+            raise MultipartParseError(description='body part is too large')
 
         return self._data
 
